@@ -26,7 +26,7 @@ def obsS (f : Option OrdMap) : String := s!"elems={fmtList (OrdMap.keys (f.getD 
 def phys (s : Sess) (cmps : Nat) : String :=
   match s.model with
   | none => "-"
-  | some t => s!"size={t.t.size} cmps={cmps} it={fmtIter s.iter} tree={fmtTree t.t.root}"
+  | some t => s!"size={t.t.size} cmps={cmps} it={fmtIter t.t.root s.iter} tree={fmtTree t.t.root}"
 def inv (s : Sess) : Bool := match s.model with | none => true | some t => decide (t.Inv (cmpOf s.which))
 def lineS (hd : String) (s : Sess) (full : Bool := false) : String :=
   if s.sparse && !full then s!"S {hd} " else s!"S {hd} {obsS s.spec}"
